@@ -1675,6 +1675,9 @@ CaseX86M_GPB_MulDiv:
           opcode = 0;
           opcode.add_arith_by_size(o0.x86_rm_size());
 
+          if (o0.x86_rm_size() == 1)
+            FIXUP_GPB(o0, op_reg);
+
           // Handle a special form of `mov al|ax|eax|rax, [ptr64]` that doesn't use MOD.
           if (op_reg == Gp::kIdAx && !rm_rel->as<Mem>().has_base_or_index()) {
             if (x86_should_use_movabs(this, writer, o0.x86_rm_size(), options, rm_rel->as<Mem>())) {
@@ -1683,9 +1686,6 @@ CaseX86M_GPB_MulDiv:
               goto EmitX86OpMovAbs;
             }
           }
-
-          if (o0.x86_rm_size() == 1)
-            FIXUP_GPB(o0, op_reg);
 
           opcode += 0x8Au;
           goto EmitX86M;
@@ -1708,6 +1708,9 @@ CaseX86M_GPB_MulDiv:
           opcode = 0;
           opcode.add_arith_by_size(o1.x86_rm_size());
 
+          if (o1.x86_rm_size() == 1)
+            FIXUP_GPB(o1, op_reg);
+
           // Handle a special form of `mov [ptr64], al|ax|eax|rax` that doesn't use MOD.
           if (op_reg == Gp::kIdAx && !rm_rel->as<Mem>().has_base_or_index()) {
             if (x86_should_use_movabs(this, writer, o1.x86_rm_size(), options, rm_rel->as<Mem>())) {
@@ -1716,9 +1719,6 @@ CaseX86M_GPB_MulDiv:
               goto EmitX86OpMovAbs;
             }
           }
-
-          if (o1.x86_rm_size() == 1)
-            FIXUP_GPB(o1, op_reg);
 
           opcode += 0x88u;
           goto EmitX86M;
